@@ -683,6 +683,7 @@ class Stream(AbstractStream):
 
         """
         if isinstance(stream_data, StreamData):
+            self.empty() # All flows are replaced; nothing to carry over to the new phases
             self.phases = phases = stream_data._phases
             imol = stream_data._imol
             if len(phases) == 1 and isinstance(imol, MaterialIndexer):
